@@ -43,6 +43,35 @@ func TestPropGeneric(t *testing.T) {
 	})
 }
 
+// TestPropConcurrent evaluates 2..8 independent cases at the same time on separate goroutines, several
+// rounds each. Every generic entry point is a function of its arguments only (checkCase sets no
+// package-level configuration of orb), so each case must still satisfy all its oracles: a failure here
+// that does not occur alone means concurrent callers share state inside the library (scratch buffers,
+// one-entry caches, pooled encoders kept in package variables).
+func TestPropConcurrent(t *testing.T) {
+	assumptions()
+	stats.Assume("concurrent groups: checkCase is a pure function of the case; no orb package-level setting (geojson.CustomJSONMarshaler, orb.DefaultRoundingFactor, wkb.DefaultByteOrder) is written by the check")
+	stats.Check(t, 400, 30000, func(rt *rapid.T) {
+		n := rapid.IntRange(2, 8).Draw(rt, "goroutines")
+		cs := make([]Case, n)
+		nt := 0
+		for i := range cs {
+			cs[i], _ = genCase(rt)
+			if nonTrivial(cs[i].G.V) {
+				nt++
+			}
+		}
+		stats.Class(fmt.Sprintf("concurrent:%d goroutines", n))
+		if nt >= 2 {
+			stats.NonTrivial("conc:" + gen.JSON(cs))
+			if stats.WantSample("concurrent") {
+				stats.Sample("concurrent", cs)
+			}
+		}
+		stats.TryParallel(rt, "TestPropConcurrent", cs, n, 8, func(i int) error { return checkCase(cs[i]) })
+	})
+}
+
 // TestEnumCatalogue runs the whole degenerate catalogue (including values the replay format cannot
 // distinguish: nil member slices) at nesting 0..3 against a grid of parameters.
 func TestEnumCatalogue(t *testing.T) {
@@ -350,6 +379,28 @@ func TestReplay(t *testing.T) {
 	if name == "TestKnownSmartclipEmptyCollection" {
 		if smartNilBroken() {
 			t.Fatalf("replayed case still fails: %s", smartWhat)
+		}
+		return
+	}
+	if name == "TestPropConcurrent" {
+		var cs []Case
+		if err := json.Unmarshal(raw, &cs); err != nil {
+			t.Fatal(err)
+		}
+		for k := 0; k < 20; k++ {
+			if err := stats.ParallelErr(len(cs), 100, func(i int) error { return checkCase(cs[i]) }); err != nil {
+				t.Fatalf("replayed concurrent group still fails: %v", err)
+			}
+		}
+		return
+	}
+	if name == "TestPropEqualSpecial" || name == "TestEnumEqualSpecial" {
+		var c EqCase
+		if err := json.Unmarshal(raw, &c); err != nil {
+			t.Fatal(err)
+		}
+		if err := stats.Guard(func() error { return checkEqCase(c) }); err != nil {
+			t.Fatalf("replayed case still fails: %v", err)
 		}
 		return
 	}
